@@ -23,21 +23,59 @@ class Obs:
         self.stderr = ""
 
 
+class _CallBudget(BaseException):
+    pass
+
+
+def _on_alarm(signum, frame):
+    raise _CallBudget()
+
+
 def call(algo, inp, policy=None):
-    """Call the real entry point exactly as a user would; exceptions are events."""
+    """Call the real entry point exactly as a user would; exceptions are events.
+
+    A wall-clock budget per call (``VERIF_CALL_BUDGET_S``, default 150 s; cost vectors under which almost everything
+    ties can make an ALL set explode) and the shard's address-space limit are watchdogs: exceeding either raises
+    SkipCase (the case is dropped and counted), never a verdict."""
+    import os
+    import signal
+
+    from rv.core import SkipCase
+
     fn = bridge.algos()[algo]
     o = Obs()
     err = io.StringIO()
+    budget = float(os.environ.get("VERIF_CALL_BUDGET_S", "150"))
+    armed = False
     try:
-        with contextlib.redirect_stderr(err):
-            res = fn(inp) if algo == "lca" else fn(inp, policy)
-        if res is None:
-            o.outs = []
-        elif algo == "lca":
-            o.outs = [res]
-        else:
-            o.outs = list(res)
-    except (RecursionError, MemoryError):
+        try:
+            old = signal.signal(signal.SIGALRM, _on_alarm)
+            signal.setitimer(signal.ITIMER_REAL, budget)
+            armed = True
+        except (ValueError, OSError, AttributeError):  # not in the main thread / not available
+            armed = False
+        try:
+            with contextlib.redirect_stderr(err):
+                res = fn(inp) if algo == "lca" else fn(inp, policy)
+            if res is None:
+                o.outs = []
+            elif algo == "lca":
+                o.outs = [res]
+            else:
+                o.outs = list(res)
+        finally:
+            if armed:
+                signal.setitimer(signal.ITIMER_REAL, 0)
+                signal.signal(signal.SIGALRM, old)
+    except _CallBudget:
+        raise SkipCase(f"{algo} did not return within {budget:.0f} s") from None
+    except MemoryError:
+        o.outs = []
+        import gc
+
+        gc.collect()
+        raise SkipCase(f"{algo} exhausted the shard's memory limit") from None
+    except RecursionError:
         raise  # resource exhaustion of the harness process is never an observation about the property
     except Exception as exc:  # noqa: BLE001 - an escaping exception is an observation
         import traceback
